@@ -1,11 +1,14 @@
 """Generator for Gen/JsonLadder.lean (C15): the isinstance ladders of `adapter.json_to_cel`,
-`CELJSONEncoder.to_python`, `CELJSONEncoder.default`, the shape of `CELJSONEncoder.encode`, the base
-classes of the celtypes wrappers, `MapType.valid_key_type`'s class tuple and the `except` classes of
-`Evaluator.member_index` — all read from /repo's current working tree.
+`CELJSONEncoder.to_python`, `CELJSONEncoder.default`, the shape of `CELJSONEncoder.encode` and `CELJSONDecoder.decode`, the base
+classes of the celtypes wrappers, `MapType.valid_key_type`'s class tuple, the integer `DurationType.__str__` writes and the `except`
+classes of `Evaluator.member_index` — all read from /repo's current working tree.
 
-Subset: an `if/elif/else` chain whose tests are `isinstance(<param>, T)`, `isinstance(<param>, (T1, …))`
-or `<param> is None`, and whose bodies are a single `return` of one of the recognised shapes.  Anything
-else is a TranslationError (handled like a broken bridge)."""
+Subset: a function body is NORMALISED into a decision tree of `return` / `raise` leaves (see "normalisation" below: early returns,
+conditional expressions, aliases, hoisted sub-expressions, loops that build a list / dict, one-expression helpers); the spine of the
+tree must be a first-match ladder whose tests are class tests on the parameter (`isinstance(p, T)`, `isinstance(p, (T1, …))`,
+`isinstance(p, T1 | T2)`, `p is None`, `or` of those) and whose leaves are of the recognised shapes.  Anything else is a
+TranslationError (handled like a broken bridge).  Nothing is skipped: a statement is consumed with its exact meaning or the
+translation fails."""
 from __future__ import annotations
 import ast
 import copy
